@@ -1,27 +1,46 @@
 /* BOUNDED unit (label B): the REAL colamd of SRC/colamd.c (with its static helpers init_rows_cols, init_scoring, find_ordering,
  * order_children, detect_super_cols, garbage_collection, clear_mark, t_add, t_mult) and the real colamd_recommended /
- * colamd_set_defaults are executed symbolically, loops unwound (unwinding assertions on), for
- *     n_row = NR, n_col = NC fixed per variant, workspace length Alen = colamd_recommended(NNZ, NR, NC) (= ALEN, asserted),
- *     EVERY content of p[0..NC] and of A[0..Alen)        (INPUTS == 0: no assumption at all: negative / decreasing pointers, p[0] != 0,
- *                                                         row indices out of range, duplicates, unsorted, empty rows / columns, every
- *                                                         p[NC] <= about NNZ -- larger ones are rejected as "A too small")
- *     resp. every content with p[NC] == NNZ              (INPUTS == 1: the way get_colamd calls it: Alen is exactly the recommended length)
- * A, p, stats are objects of exactly Alen, NC+1, COLAMD_STATS ints, so that every access outside them is an array-bounds / pointer
- * violation for cbmc.  The result is compared with a specification computed here by brute force (shares no code with colamd.c). */
+ * colamd_set_defaults are executed for n_row = NR, n_col = NC (fixed per variant) on
+ *   INPUTS == 2  every LEGAL column form with at most NNZ entries: p[0] = 0 <= p[1] <= ... <= p[NC] <= NNZ, row indices in 0..NR-1 in any
+ *                order, duplicates included, empty rows / columns included;
+ *   INPUTS == 4  every sorted duplicate-free pattern (each column any subset of the rows; NNZ = NR*NC is only the capacity);
+ *   INPUTS == 3  every content of p[0..NC] over the values PLO..NNZ+1 and of the first NNZ cells of A over -1..NR  (legal or not:
+ *                p[0] != 0, negative nnz, decreasing pointers, row indices out of range, nnz too large for the workspace);
+ *   INPUTS == 0  every content whatsoever, fully symbolic (one SAT query; only feasible for 1 x 1).
+ * For INPUTS 2 / 3 the input cells are chosen by pick(): a chain of nondeterministic branches, explored ONE PATH AT A TIME (cbmc --paths),
+ * so that on each path the cells are constants and the struct-in-int-array accesses of colamd (Col[] and Row[] live inside A[]) have
+ * constant offsets -- a single symbolic query runs out of memory already for 2 x 2 (byte-level encoding of the overlay).
+ * The workspace handed to colamd has exactly Alen ints with
+ *   ALENMODE == 0  Alen = colamd_recommended(p[NC], NR, NC)            (what get_colamd passes; the value is asserted against the formula)
+ *   ALENMODE == 1  Alen = 2*nnz + n_col + Col_size + Row_size           (the documented minimum: forces garbage collections)
+ * It is the tail of the object in_A (capacity for NNZ entries), so every access behind A[Alen-1] is an array-bounds violation for cbmc; the
+ * cells of in_A in front of it are checked to be unchanged.  p and stats are objects of exactly NC+1 and COLAMD_STATS ints.
+ * The result is compared with a specification computed here by brute force (shares no code with colamd.c). */
 #include <limits.h>
+#include <stddef.h>
 #include "colamd.h"
 #ifndef KNOBS
-#define KNOBS 0      /* 0: colamd_set_defaults (what get_colamd passes)  1: NULL (colamd's own defaults)  2: negative dense knobs, aggressive on
-                        3: negative dense knobs, aggressive off   4: default dense knobs, aggressive off */
+#define KNOBS 0      /* 0: colamd_set_defaults (what get_colamd passes)  1: NULL (colamd's own defaults)  2: negative dense knobs ("only remove
+                        completely dense rows / columns"), aggressive absorption on   3: negative dense knobs, aggressive off
+                        4: default dense knobs, aggressive off */
 #endif
-#define ALEN (2 * NNZ + NNZ / 5 + 6 * (NC + 1) + 4 * (NR + 1) + NC)
-#define NEED(z) (2 * (long long)(z) + 6 * (NC + 1) + 4 * (NR + 1) + NC)
+#ifndef ALENMODE
+#define ALENMODE 0
+#endif
+#ifndef PLO
+#define PLO (-1)
+#endif
+#define REC(z)  (2 * (z) + (z) / 5 + 6 * (NC + 1) + 4 * (NR + 1) + NC)      /* colamd_recommended; sizeof(Colamd_Col) = 6 ints, sizeof(Colamd_Row) = 4 ints */
+#define NEED(z) (2 * (z) + 6 * (NC + 1) + 4 * (NR + 1) + NC)                /* header comment of colamd: "Alen >= 2*nnz + 6*(n_col+1) + 4*(n_row+1) + n_col" */
+#define ALEN REC(NNZ)                                                        /* capacity of the object */
 
-int in_p[NC + 1], in_A[ALEN];                  /* inputs: column pointers and the workspace whose first p[NC] entries are the row indices */
+int in_p[NC + 1], in_A[ALEN];                  /* inputs: column pointers; workspace object (its tail of Alen ints is handed over) */
 int g_p0[NC + 1], g_A0[ALEN];                  /* ghost copies of the input (colamd destroys both) */
 int g_stats[COLAMD_STATS]; double g_knobs[COLAMD_KNOBS];
-int g_ret, g_valid, g_jumbled, g_nempty_col, g_nempty_row;
-int nondet_int(void);
+int g_rows[NNZ + 1];
+int g_ret, g_valid, g_jumbled, g_nempty_col, g_nempty_row, g_alen, g_off;
+int nondet_int(void); _Bool nondet_bool(void);
+static int pick(int lo, int hi) { int v; for (v = lo; v < hi; v++) if (nondet_bool()) return v; return hi; }
 
 /* sqrt is only reached through DENSE_DEGREE(alpha, n) = max(16, alpha * sqrt(n)) with n = n_col resp. min(n_row, n_col): exact values
  * for the arguments that occur, anything else is flagged */
@@ -36,66 +55,104 @@ double sqrt(double x) {
   return 0.0;
 }
 
-_Bool nondet_bool(void);
-static int pick(int lo, int hi) { int v; for (v = lo; v < hi; v++) if (nondet_bool()) return v; return hi; }
-
 void h_colamd(void) {
-  int k, c, j, r, seen[NR + 1], rowcnt[NR + 1], nnz, last, e;
+  int k, c, j, r, seen[NR + 1], rowcnt[NR + 1], colcnt[NC + 1], nnz, last, e, *A;
   size_t rec;
+  /* ---- inputs: column pointers */
 #if INPUTS == 2
-  /* path-wise enumeration (cbmc --paths): every input cell gets a CONSTANT on each path, so that the struct-in-int-array accesses of
-   * colamd have constant offsets; column pointers range over -1..NNZ+1, row indices over -1..NR, the cells behind them stay symbolic */
-  for (k = 0; k <= NC; k++) { in_p[k] = pick(-1, NNZ + 1); g_p0[k] = in_p[k]; }
-  for (k = 0; k < ALEN; k++) { in_A[k] = k < NNZ ? pick(-1, NR) : nondet_int(); g_A0[k] = in_A[k]; }
+  in_p[0] = 0;
+  for (k = 1; k <= NC; k++) in_p[k] = pick(in_p[k - 1], NNZ);
+  __CPROVER_assume(NR > 0 || in_p[NC] == 0);
+#elif INPUTS == 3
+  for (k = 0; k <= NC; k++) in_p[k] = pick(PLO, NNZ + 1);
+#elif INPUTS == 4
+  /* every sorted duplicate-free pattern: column c is the subset of rows chosen here (bit by bit); NNZ = NR * NC is the capacity */
+  nnz = 0;
+  for (c = 0; c < NC; c++) {
+    in_p[c] = nnz;
+    for (r = 0; r < NR; r++) {
+      _Bool bit = nondet_bool();
+#ifdef SPLIT                /* halves the enumeration: entry (0,0) present (1) / absent (0) */
+      if (c == 0 && r == 0) __CPROVER_assume(bit == SPLIT);
+#endif
+      if (bit) g_rows[nnz++] = r;
+    }
+  }
+  in_p[NC] = nnz;
 #else
-  for (k = 0; k <= NC; k++) { in_p[k] = nondet_int(); g_p0[k] = in_p[k]; }
-  for (k = 0; k < ALEN; k++) { in_A[k] = nondet_int(); g_A0[k] = in_A[k]; }
+  for (k = 0; k <= NC; k++) in_p[k] = nondet_int();
 #endif
-  for (k = 0; k < COLAMD_STATS; k++) g_stats[k] = nondet_int();
-#if INPUTS == 1
-  __CPROVER_assume(in_p[NC] == NNZ);
-#endif
-  /* ---- specification, part 1: is the input a legal column form?  (header comment of colamd) */
+  for (k = 0; k <= NC; k++) g_p0[k] = in_p[k];
   nnz = g_p0[NC];
-  g_valid = (nnz >= 0 && g_p0[0] == 0 && NEED(nnz) <= ALEN);
+  /* ---- workspace length */
+#if INPUTS == 0
+  g_alen = ALEN;                                  /* symbolic p[NC]: the workspace is the recommended one for NNZ entries */
+  rec = colamd_recommended(NNZ, NR, NC);
+  __CPROVER_assert(rec == (size_t) ALEN, "colamd_recommended(nnz, n_row, n_col) == 2*nnz + nnz/5 + 6*(n_col+1) + 4*(n_row+1) + n_col");
+#else
+  if (0 <= nnz && nnz <= NNZ) {
+    rec = colamd_recommended(nnz, NR, NC);
+    __CPROVER_assert(rec == (size_t) REC(nnz), "colamd_recommended(nnz, n_row, n_col) == 2*nnz + nnz/5 + 6*(n_col+1) + 4*(n_row+1) + n_col");
+    g_alen = ALENMODE == 1 ? NEED(nnz) : (int) rec;
+  } else {
+    g_alen = ALEN;                                /* illegal nnz: any workspace; colamd has to refuse */
+  }
+#endif
+  g_off = ALEN - g_alen;
+  A = in_A + g_off;
+  /* ---- inputs: row indices = the first p[NC] cells of the workspace; every other cell of the object is arbitrary */
+  for (k = 0; k < ALEN; k++) {
+#if INPUTS == 2
+    in_A[k] = (g_off <= k && k < g_off + nnz) ? pick(0, NR - 1) : nondet_int();
+#elif INPUTS == 3
+    in_A[k] = (g_off <= k && k < g_off + nnz && k < g_off + NNZ) ? pick(-1, NR) : nondet_int();
+#elif INPUTS == 4
+    in_A[k] = (g_off <= k && k < g_off + nnz) ? g_rows[k - g_off] : nondet_int();
+#else
+    in_A[k] = nondet_int();
+#endif
+    g_A0[k] = in_A[k];
+  }
+  for (k = 0; k < COLAMD_STATS; k++) g_stats[k] = nondet_int();
+  /* ---- specification, part 1: is the input a legal column form?  (header comment of colamd) */
+  g_valid = (nnz >= 0 && g_p0[0] == 0 && NEED((long long) nnz) <= g_alen);
   if (g_valid) for (c = 0; c < NC; c++) if (g_p0[c] > g_p0[c + 1]) g_valid = 0;
-  if (g_valid) for (k = 0; k < ALEN; k++) if (k < nnz && (g_A0[k] < 0 || g_A0[k] >= NR)) g_valid = 0;
+  if (g_valid) for (k = 0; k < ALEN; k++) if (k < nnz && (g_A0[g_off + k] < 0 || g_A0[g_off + k] >= NR)) g_valid = 0;
   g_jumbled = 0; g_nempty_col = 0; g_nempty_row = 0;
   if (g_valid) {
     for (r = 0; r <= NR; r++) rowcnt[r] = 0;
     for (c = 0; c < NC; c++) {
-      last = -1;
+      last = -1; colcnt[c] = 0;
       for (r = 0; r <= NR; r++) seen[r] = 0;
       for (k = 0; k < ALEN; k++) if (g_p0[c] <= k && k < g_p0[c + 1]) {
-        r = g_A0[k];
+        r = g_A0[g_off + k];
         if (r <= last || seen[r]) g_jumbled = 1;
-        if (!seen[r]) rowcnt[r]++;
+        if (!seen[r]) { rowcnt[r]++; colcnt[c]++; }
         seen[r] = 1; last = r;
       }
-      if (g_p0[c] == g_p0[c + 1]) g_nempty_col++;
+      if (colcnt[c] == 0) g_nempty_col++;
     }
     for (r = 0; r < NR; r++) if (rowcnt[r] == 0) g_nempty_row++;
   }
   /* ---- the calls, as get_colamd makes them */
-  rec = colamd_recommended(NNZ, NR, NC);
-  __CPROVER_assert(rec == ALEN, "colamd_recommended(NNZ, NR, NC) == 2*nnz + nnz/5 + 6*(n_col+1) + 4*(n_row+1) + n_col");
 #if KNOBS == 1
-  g_ret = colamd(NR, NC, (int) rec, in_A, in_p, (double *) 0, g_stats);
+  g_ret = colamd(NR, NC, g_alen, A, in_p, (double *) 0, g_stats);
 #else
   colamd_set_defaults(g_knobs);
   __CPROVER_assert(g_knobs[COLAMD_DENSE_ROW] == 10.0 && g_knobs[COLAMD_DENSE_COL] == 10.0 && g_knobs[COLAMD_AGGRESSIVE] == 1.0, "colamd_set_defaults: documented default knobs");
 #if KNOBS == 2 || KNOBS == 3
-  g_knobs[COLAMD_DENSE_ROW] = -1.0; g_knobs[COLAMD_DENSE_COL] = -1.0;     /* "only remove completely dense rows / columns" */
+  g_knobs[COLAMD_DENSE_ROW] = -1.0; g_knobs[COLAMD_DENSE_COL] = -1.0;
 #endif
 #if KNOBS == 3 || KNOBS == 4
   g_knobs[COLAMD_AGGRESSIVE] = 0.0;
 #endif
-  g_ret = colamd(NR, NC, (int) rec, in_A, in_p, g_knobs, g_stats);
+  g_ret = colamd(NR, NC, g_alen, A, in_p, g_knobs, g_stats);
 #endif
 
   /* ---- specification, part 2 */
   __CPROVER_assert(g_ret == 0 || g_ret == 1, "colamd returns TRUE or FALSE");
   __CPROVER_assert((g_ret == 1) == (g_valid != 0), "colamd returns TRUE exactly for a legal column form that fits into Alen");
+  for (k = 0; k < ALEN; k++) if (k < g_off) __CPROVER_assert(in_A[k] == g_A0[k], "nothing in front of A[0] is written");
   if (g_ret) {
     /* (1) p[0..n_col) is a permutation of 0..n_col-1 */
     for (k = 0; k < NC; k++) {
@@ -110,10 +167,14 @@ void h_colamd(void) {
     __CPROVER_assert(g_stats[COLAMD_DENSE_COL] == g_nempty_col, "TRUE: stats[1] == number of empty columns");
     __CPROVER_assert(g_stats[COLAMD_DENSE_ROW] == g_nempty_row, "TRUE: stats[0] == number of empty rows");
     e = 0;
-    for (c = 0; c < NC; c++) if (g_p0[c] == g_p0[c + 1]) {
+    for (c = 0; c < NC; c++) if (colcnt[c] == 0) {
       __CPROVER_assert(in_p[NC - g_nempty_col + e] == c, "TRUE: empty columns are ordered last, in natural order");
       e++;
     }
+#else
+    /* dense knobs < 0: rows with n_col entries and columns with n_row entries are removed as well; what is ignored includes the empty ones */
+    __CPROVER_assert(g_nempty_col <= g_stats[COLAMD_DENSE_COL] && g_stats[COLAMD_DENSE_COL] <= NC, "TRUE: empty columns <= stats[1] <= n_col");
+    __CPROVER_assert(g_nempty_row <= g_stats[COLAMD_DENSE_ROW] && g_stats[COLAMD_DENSE_ROW] <= NR, "TRUE: empty rows <= stats[0] <= n_row");
 #endif
     __CPROVER_assert(g_stats[COLAMD_DEFRAG_COUNT] >= 0, "TRUE: stats[2] (garbage collections) >= 0");
   } else {
@@ -121,17 +182,27 @@ void h_colamd(void) {
   }
   /* ---- canaries */
   __CPROVER_assert(0, "canary: colamd returns");
-  if (g_ret) __CPROVER_assert(0, "canary: colamd returns TRUE");
+#if INPUTS != 2 && INPUTS != 4
   if (!g_ret) __CPROVER_assert(0, "canary: colamd returns FALSE");
-#if NNZ >= 2 && NR >= 1 && NC >= 1
-  if (g_ret && g_jumbled) __CPROVER_assert(0, "canary: jumbled input accepted");
+#if NNZ >= 1 && NC >= 1
   if (!g_ret && g_stats[COLAMD_STATUS] == COLAMD_ERROR_row_index_out_of_bounds) __CPROVER_assert(0, "canary: row index out of bounds rejected");
 #endif
-#if NC >= 2
+#endif
+#if NR >= 1 || INPUTS == 3 || INPUTS == 0
+  if (g_ret) __CPROVER_assert(0, "canary: colamd returns TRUE");
+#endif
+#if NNZ >= 2 && NR >= 1 && NC >= 1 && INPUTS != 4
+  if (g_ret && g_jumbled) __CPROVER_assert(0, "canary: jumbled input accepted");
+#endif
+#if NC >= 2 && NR >= 1 && NNZ >= 1
   if (g_ret && in_p[0] != 0) __CPROVER_assert(0, "canary: order differs from the natural one");
   if (g_ret && g_nempty_col == 1) __CPROVER_assert(0, "canary: one empty column");
 #endif
 #ifdef CANARY_GC
   if (g_ret && g_stats[COLAMD_DEFRAG_COUNT] > 0) __CPROVER_assert(0, "canary: garbage collection performed");
+#endif
+#ifdef CANARY_DENSE
+  if (g_ret && g_stats[COLAMD_DENSE_ROW] > g_nempty_row) __CPROVER_assert(0, "canary: dense row removed");
+  if (g_ret && g_stats[COLAMD_DENSE_COL] > g_nempty_col) __CPROVER_assert(0, "canary: dense column removed");
 #endif
 }
